@@ -24,6 +24,7 @@ def add(M, a, b): return M.binop_t('Add', a, b, 'u64')
 def simulate(M, prog, case):
     """-> dict(quit_time, first_ping, pings, errors, log)"""
     M.env['select_start'] = 0
+    if case.get('forced_choices'): M.env['forced_choices'] = {k: list(v) for k, v in case['forced_choices'].items()}
     P = z3.BitVec('P', 64); Q = z3.BitVec('Q', 64)
     M.assume(z3.And(z3.UGE(P, 1), z3.ULE(P, 1 << 20), z3.UGE(Q, 1), z3.ULE(Q, 1 << 20)))
     reg = case['regime']
@@ -176,7 +177,7 @@ def p_keepalive(prog, case, budget):
                                                   quit_time=(str(md.eval(res['quit_time'], True)) if is_sym(res['quit_time']) else res['quit_time']), profile=prog.profile)))
         if len(samples) < 1:
             samples.append(dict(case=case['name'], events=[(a, str(z3.simplify(b)) if is_sym(b) else b) for a, b in res['log']][:8], quit=str(res['quit_time'])))
-    explore(prog, run, on, stats=st, timeout_ms=budget['solver_ms'], max_steps=budget['steps'], max_paths=budget['paths'],
+    explore(prog, run, on, stats=st, prefix=case.get('prefix'), timeout_ms=budget['solver_ms'], max_steps=budget['steps'], max_paths=budget['paths'],
             deadline=(time.time() + budget['case_s']) if budget.get('case_s') else None)
     return dict(stats=st, findings=findings, samples=samples, nontrivial=nontriv[0], case=case['name'])
 
@@ -202,7 +203,9 @@ def make_cases(tier, profile):
         cases.append(dict(name=f'silent client, {regime}', pure='keepalive', regime=regime, client='silent', periods=periods))
         cases.append(dict(name=f'client answering later than pong_timeout, {regime}', pure='keepalive', regime=regime, client='late', periods=periods))
         for b in bands[regime]:
-            cases.append(dict(name=f'client answering every PING after a delay {b}, {regime}', pure='keepalive', regime=regime, client='answers', band=b, periods=periods))
+            # bands with d = k*P put a PONG arrival on every PING instant: every order of the due tasks is explored there, so these cases are split over the workers
+            tie = {'csplit': [('select_order', 2), ('task_order', 2), ('select_order', 2), ('task_order', 2)] + ([('select_order', 2), ('task_order', 2)] if tier != 'quick' else [])} if b in ('d=P', 'd=2P') else {}
+            cases.append(dict(name=f'client answering every PING after a delay {b}, {regime}', pure='keepalive', regime=regime, client='answers', band=b, periods=periods, **tie))
             cases.append(dict(name=f'client that stops after one answer (delay {b}), {regime}', pure='keepalive', regime=regime, client=('stops_after', 1), band=b, periods=periods + 1))
     spec = dict(sym_caps=False, sym_max_joins=False, sym_topic=False, sym_key=False, sym_limit=False, sym_lists=False, sym_flags=False, sym_ranks=False, sym_invites=False, sym_away=False,
                 sym_modes=False, plain_chans=['#x', '&y'], nicks=['alice', 'bob', 'carol'])
